@@ -463,10 +463,15 @@ pub fn cfg(p: &Profile) -> BoxedStrategy<Cfg> {
 }
 
 pub fn case(p: &Profile) -> BoxedStrategy<Case> {
-    let shrink = prop_oneof![
-        (100 - p.shrink_mps_pct.min(99)) => Just(Vec::new()),
-        p.shrink_mps_pct.max(1) => prop::collection::vec(prop::sample::select(vec![None, Some(5u32), Some(5), Some(6), Some(8), Some(20)]), 8),
-    ];
+    let shrink: BoxedStrategy<Vec<Option<u32>>> = if p.shrink_mps_pct == 0 {
+        Just(Vec::new()).boxed()
+    } else {
+        prop_oneof![
+            (100 - p.shrink_mps_pct.min(99)) => Just(Vec::new()),
+            p.shrink_mps_pct => prop::collection::vec(prop::sample::select(vec![None, Some(5u32), Some(5), Some(6), Some(8), Some(20)]), 8),
+        ]
+        .boxed()
+    };
     (cfg(p), pct(p.auto_broker_pct), prop::collection::vec(conn_script(p), p.conns.0..=p.conns.1), pct(p.vary_rm_pct), shrink)
         .prop_map(|(cfg, auto, mut conns, vary_rm, shrink)| {
             // one broker: its limits do not change between the connections of a case
